@@ -21,6 +21,18 @@
 //                             by the library; the values marshalled by the library
 //                             -> (0 iso <rdec> bytes)
 //   (9 v)                     NALUType(v)/AVCProfile(v)/AVCLevel(v).String() texts -> (0 s1 s2 s3)
+//   (10 (op...))              a HISTORY on up to four objects (slots 0..3), op =
+//                               (0 k kind arg)  slot k := NewAVCDecoderConfigurationRecord (kind 0) | NewAVCSample(arg) (1) | NewNALU (2)
+//                               (1 k data)      UnmarshalBinary(data) on slot k
+//                               (2 k)           MarshalBinary of slot k, the returned slice is KEPT (not copied)
+//                               (3 k ref type data)          NALU slot: assign the three fields (Data = a new slice)
+//                               (4 k which idx ref type data) assign the fields of the idx-th unit of list which (0 SPS/NALUs, 1 PPS)
+//                               (5 k which ref type data)    append a new unit;   (6 k which) list = nil
+//                               (7 k ver prof compat level lsm1) scalar fields (sample: lengthSizeMinusOne = lsm1)
+//                               (8 k1 k2)       MarshalBinary of both slots from two goroutines, both results kept
+//                             -> ((out...) (slot0 slot1 slot2 slot3)); out = (0 ...) | (1 code) | (2) | (-1);
+//                             the Marshal entries (0 bytes) / (0 bytes1 bytes2) are read from the kept slices
+//                             after the last operation; a Data slice that gets replaced is overwritten.
 //   <sdec> = (0 (nalu...)) | (1 code (nalu...)) | (2)            (NALUs appended so far)
 //   <rdec> = (0 ver prof compat level lsm1 (sps...) (pps...)) | (1 code ver ... (pps...)) | (2)
 // Error codes: 1 empty NALU, 2 "requires 6+", 3 "requires 2+ only" (SPS length), 4 "requires n
@@ -36,6 +48,7 @@ import (
 	"bytes"
 	"fmt"
 	"strings"
+	"sync"
 	"testing"
 
 	oe "github.com/ossrs/go-oryx-lib/errors"
@@ -607,6 +620,8 @@ func vC12Run(c vSx) (r vC12Res) {
 			}
 			r.bad("record-iso-layout", fmt.Sprintf("library writes %s, ISO 14496-15 5.2.4.1 layout is %s (first difference at byte %d)", vC12Hex(back), vC12Hex(iso), i))
 		}
+	case 10:
+		r.history(c)
 	case 9:
 		v := c.l[1].int()
 		h := &NALUHeader{NALRefIDC: NALRefIDC(v), NALUType: NALUType(v)}
@@ -620,6 +635,289 @@ func vC12Run(c vSx) (r vC12Res) {
 		r.obs = vL(vZ(-1))
 	}
 	return
+}
+
+// ---------- histories ----------
+type vC12Obj struct {
+	kind int // 0 record, 1 sample, 2 nalu
+	rec  *AVCDecoderConfigurationRecord
+	smp  *AVCSample
+	nal  *NALU
+	// shadow: the field values the statement expects, maintained without the library
+	known bool
+	srec  vC12Rec
+	slsm1 int
+	snals []vC12N
+	snal  vC12N
+}
+
+func vC12Scribble(b []byte) {
+	for i := range b {
+		b[i] = 0xee
+	}
+}
+
+func (o *vC12Obj) marshal() ([]byte, error) {
+	switch o.kind {
+	case 0:
+		return o.rec.MarshalBinary()
+	case 1:
+		return o.smp.MarshalBinary()
+	}
+	return o.nal.MarshalBinary()
+}
+
+// the ISO layout of the shadow's current field values, ok=false when they are outside the property's ranges
+func (o *vC12Obj) expected() ([]byte, bool) {
+	if !o.known {
+		return nil, false
+	}
+	switch o.kind {
+	case 0:
+		x := o.srec
+		if x.lsm1 > 3 || x.prof > 255 || len(x.sps) > 31 || len(x.pps) > 255 || !vC12AllInRange(x.sps, 65535) || !vC12AllInRange(x.pps, 65535) {
+			return nil, false
+		}
+		return vC12IsoRecord(x.ver, x.prof, x.compat, x.level, x.lsm1, vC12Bytes(x.sps), vC12Bytes(x.pps)), true
+	case 1:
+		if o.slsm1 > 3 || !vC12AllInRange(o.snals, 1<<uint(8*(o.slsm1+1))-1) {
+			return nil, false
+		}
+		return vC12IsoSample(o.slsm1, vC12Bytes(o.snals)), true
+	}
+	if !o.snal.inRange() {
+		return nil, false
+	}
+	return o.snal.iso(), true
+}
+
+func (o *vC12Obj) list(which int) (*[]*NALU, *[]vC12N) {
+	switch o.kind {
+	case 0:
+		if which == 0 {
+			return &o.rec.SequenceParameterSetNALUnits, &o.srec.sps
+		}
+		return &o.rec.PictureParameterSetNALUnits, &o.srec.pps
+	case 1:
+		return &o.smp.NALUs, &o.snals
+	}
+	return nil, nil
+}
+
+func (o *vC12Obj) value() vSx {
+	switch o.kind {
+	case 0:
+		return vLs(append([]vSx{vZ(0)}, vC12RecFrom(o.rec).fields()...))
+	case 1:
+		return vL(vZ(1), vI(int(o.smp.lengthSizeMinusOne)), vC12NsSx(vC12Froms(o.smp.NALUs)))
+	}
+	return vL(vZ(2), vC12From(o.nal).sx())
+}
+
+func (r *vC12Res) history(c vSx) {
+	type kept struct {
+		pos, sub   int
+		res        []byte // the returned slice, NOT copied
+		atCall     []byte
+		want       []byte
+		haveWant   bool
+		what       string
+	}
+	var keeps []kept
+	var outs []vSx
+	objs := map[int]*vC12Obj{}
+	nMarshal := 0
+	keep := func(o *vC12Obj, b []byte, sub int, k int) {
+		want, ok := o.expected()
+		keeps = append(keeps, kept{pos: len(outs), sub: sub, res: b, atCall: append([]byte{}, b...), want: want, haveWant: ok,
+			what: fmt.Sprintf("marshal #%d (slot %d, kind %d)", nMarshal, k, o.kind)})
+		nMarshal++
+	}
+	newN := func(ref, typ int, d []byte) *NALU {
+		u := NewNALU()
+		u.NALRefIDC, u.NALUType, u.Data = NALRefIDC(ref), NALUType(typ), append([]byte{}, d...)
+		return u
+	}
+	for _, op := range c.l[1].l {
+		bad := vL(vZ(-1))
+		if !op.isList() || len(op.l) < 2 || !op.l[0].isInt() {
+			outs = append(outs, bad)
+			continue
+		}
+		k := op.l[1].int()
+		o := objs[k]
+		switch code := op.l[0].int(); {
+		case code == 0:
+			n := &vC12Obj{kind: op.l[2].int(), known: true}
+			switch n.kind {
+			case 0:
+				n.rec = NewAVCDecoderConfigurationRecord()
+				n.srec = vC12Rec{ver: 1}
+			case 1:
+				n.smp = NewAVCSample(uint8(op.l[3].int()))
+				n.slsm1 = op.l[3].int() & 255
+			default:
+				n.kind = 2
+				n.nal = NewNALU()
+			}
+			objs[k] = n
+			outs = append(outs, vL(vZ(0)))
+		case o == nil:
+			outs = append(outs, bad)
+		case code == 1:
+			data := append([]byte{}, op.l[2].b...)
+			var err error
+			msg := vPanicText(func() {
+				switch o.kind {
+				case 0:
+					err = o.rec.UnmarshalBinary(data)
+				case 1:
+					err = o.smp.UnmarshalBinary(data)
+				default:
+					err = o.nal.UnmarshalBinary(data)
+				}
+			})
+			switch {
+			case msg != "":
+				outs = append(outs, vPanicObs())
+				r.bad("no-panic", "UnmarshalBinary panicked inside a history: "+msg)
+			case err != nil:
+				outs = append(outs, vErr(vC12Code(err, o.kind == 1)))
+			case o.kind == 2:
+				outs = append(outs, vL(vZ(0), vC12From(o.nal).sx()))
+			default:
+				outs = append(outs, vL(vZ(0)))
+			}
+			// shadow
+			switch o.kind {
+			case 0:
+				if want, _, _, ok := vC12IsoParseRecord(data); ok {
+					o.srec.ver, o.srec.prof, o.srec.compat, o.srec.level, o.srec.lsm1 = want.ver, want.prof, want.compat, want.level, want.lsm1
+					o.srec.sps = append(o.srec.sps, want.sps...)
+					o.srec.pps = append(o.srec.pps, want.pps...)
+					if err != nil {
+						r.bad("record-iso-read", "conformant record rejected inside a history: "+err.Error())
+					}
+				} else {
+					o.known = false
+				}
+			case 1:
+				if want, ok := vC12IsoParseSample(o.slsm1, data); ok && o.slsm1 <= 3 {
+					o.snals = append(o.snals, want...)
+					if err != nil {
+						r.bad("sample-iso-read", "conformant sample rejected inside a history: "+err.Error())
+					}
+				} else {
+					o.known = false
+				}
+			default:
+				if len(data) >= 1 {
+					o.snal = vC12Split(data)
+				}
+			}
+		case code == 2:
+			b, err := o.marshal()
+			if err != nil {
+				outs = append(outs, vErr(99))
+				r.bad("history-marshal", "MarshalBinary failed: "+err.Error())
+				continue
+			}
+			keep(o, b, 0, k)
+			outs = append(outs, vL(vZ(-2)))
+		case code == 8:
+			o2 := objs[op.l[2].int()]
+			if o2 == nil {
+				outs = append(outs, bad)
+				continue
+			}
+			var b1, b2 []byte
+			var e1, e2 error
+			var wg sync.WaitGroup
+			wg.Add(2)
+			go func() { defer wg.Done(); b1, e1 = o.marshal() }()
+			go func() { defer wg.Done(); b2, e2 = o2.marshal() }()
+			wg.Wait()
+			if e1 != nil || e2 != nil {
+				outs = append(outs, vErr(99))
+				r.bad("history-marshal", "concurrent MarshalBinary failed")
+				continue
+			}
+			keep(o, b1, 0, k)
+			keep(o2, b2, 1, op.l[2].int())
+			outs = append(outs, vL(vZ(-2)))
+		case code == 3 && o.kind == 2:
+			old := o.nal.Data
+			nn := newN(op.l[2].int(), op.l[3].int(), op.l[4].b)
+			o.nal.NALRefIDC, o.nal.NALUType, o.nal.Data = nn.NALRefIDC, nn.NALUType, nn.Data
+			vC12Scribble(old)
+			o.snal = vC12N{ref: op.l[2].int() & 255, typ: op.l[3].int() & 255, data: append([]byte{}, op.l[4].b...)}
+			outs = append(outs, vL(vZ(0)))
+		case code == 4 && o.kind != 2:
+			lp, sp := o.list(op.l[2].int())
+			idx := op.l[3].int()
+			if idx >= 0 && idx < len(*lp) {
+				u := (*lp)[idx]
+				old := u.Data
+				nn := newN(op.l[4].int(), op.l[5].int(), op.l[6].b)
+				u.NALRefIDC, u.NALUType, u.Data = nn.NALRefIDC, nn.NALUType, nn.Data
+				vC12Scribble(old)
+				if o.known && idx < len(*sp) {
+					(*sp)[idx] = vC12N{ref: op.l[4].int() & 255, typ: op.l[5].int() & 255, data: append([]byte{}, op.l[6].b...)}
+				}
+			}
+			outs = append(outs, vL(vZ(0)))
+		case code == 5 && o.kind != 2:
+			lp, sp := o.list(op.l[2].int())
+			*lp = append(*lp, newN(op.l[3].int(), op.l[4].int(), op.l[5].b))
+			*sp = append(*sp, vC12N{ref: op.l[3].int() & 255, typ: op.l[4].int() & 255, data: append([]byte{}, op.l[5].b...)})
+			outs = append(outs, vL(vZ(0)))
+		case code == 6 && o.kind != 2:
+			lp, sp := o.list(op.l[2].int())
+			for _, u := range *lp {
+				vC12Scribble(u.Data)
+			}
+			*lp, *sp = nil, nil
+			outs = append(outs, vL(vZ(0)))
+		case code == 7 && o.kind == 0:
+			o.rec.configurationVersion = uint8(op.l[2].int())
+			o.rec.AVCProfileIndication = AVCProfile(op.l[3].int())
+			o.rec.profileCompatibility = uint8(op.l[4].int())
+			o.rec.AVCLevelIndication = AVCLevel(op.l[5].int())
+			o.rec.LengthSizeMinusOne = uint8(op.l[6].int())
+			o.srec.ver, o.srec.prof, o.srec.compat, o.srec.level, o.srec.lsm1 = op.l[2].int()&255, op.l[3].int()&65535, op.l[4].int()&255, op.l[5].int()&255, op.l[6].int()&255
+			outs = append(outs, vL(vZ(0)))
+		case code == 7 && o.kind == 1:
+			o.smp.lengthSizeMinusOne = uint8(op.l[6].int())
+			o.slsm1 = op.l[6].int() & 255
+			outs = append(outs, vL(vZ(0)))
+		default:
+			outs = append(outs, bad)
+		}
+	}
+	// after the last operation: every kept result must be unchanged and equal the ISO layout of the
+	// field values its object had at the time of its call
+	filled := map[int][]vSx{}
+	for _, kp := range keeps {
+		filled[kp.pos] = append(filled[kp.pos], vB(kp.res))
+		if !bytes.Equal(kp.res, kp.atCall) {
+			r.bad("history-kept-result", fmt.Sprintf("%s: the returned bytes changed after later operations (%s -> %s)", kp.what, vC12Hex(kp.atCall), vC12Hex(kp.res)))
+		} else if kp.haveWant && !bytes.Equal(kp.res, kp.want) {
+			r.bad("history-marshal", fmt.Sprintf("%s: %s, the ISO layout of the current field values is %s", kp.what, vC12Hex(kp.res), vC12Hex(kp.want)))
+		}
+	}
+	for pos, items := range filled {
+		outs[pos] = vLs(append([]vSx{vZ(0)}, items...))
+	}
+	var vals []vSx
+	for k := 0; k < 4; k++ {
+		if o := objs[k]; o != nil {
+			vals = append(vals, o.value())
+		} else {
+			vals = append(vals, vL())
+		}
+	}
+	r.nontrivial = len(keeps) >= 2
+	r.obs = vL(vLs(outs), vLs(vals))
 }
 
 // ---------- generators ----------
@@ -712,7 +1010,145 @@ func vC12BytesSx(bs [][]byte) vSx {
 	return vLs(items)
 }
 
+// histories: objects are created, filled by UnmarshalBinary or by field assignment, mutated (Data
+// replaced by same-length and different-length slices, header fields, list append / clear, scalar
+// fields) and marshalled repeatedly, on the same and on different objects, also concurrently
+func vC12GenHistory(rnd *vRng) vSx {
+	var ops []vSx
+	kinds := map[int]int{}
+	lens := map[int][2]int{} // list lengths per slot (SPS/NALUs, PPS) as far as the generator knows
+	nobj := rnd.rng(1, 3)
+	nal := func(sameLenAs int) (int, int, []byte) {
+		n := rnd.rng(0, 9)
+		if sameLenAs >= 0 {
+			n = sameLenAs
+		}
+		return rnd.intn(4), rnd.intn(32), rnd.bytes(n)
+	}
+	for k := 0; k < nobj; k++ {
+		kind := rnd.intn(3)
+		kinds[k] = kind
+		arg := rnd.pickInt(3, 3, 0, 1, 2)
+		ops = append(ops, vL(vZ(0), vI(k), vI(kind), vI(arg)))
+		switch kind {
+		case 0:
+			if rnd.chance(2, 3) {
+				rec := vC12GenRecord(rnd)
+				for len(rec.sps) > 3 {
+					rec.sps = rec.sps[:3]
+				}
+				for len(rec.pps) > 3 {
+					rec.pps = rec.pps[:3]
+				}
+				for i := range rec.sps {
+					rec.sps[i].data = rnd.bytes(rnd.rng(0, 6))
+				}
+				for i := range rec.pps {
+					rec.pps[i].data = rnd.bytes(rnd.rng(0, 6))
+				}
+				ops = append(ops, vL(vZ(1), vI(k), vB(vC12IsoRecord(rec.ver, rec.prof, rec.compat, rec.level, rec.lsm1, vC12Bytes(rec.sps), vC12Bytes(rec.pps)))))
+				lens[k] = [2]int{len(rec.sps), len(rec.pps)}
+			}
+		case 1:
+			if rnd.chance(2, 3) {
+				var nb [][]byte
+				cnt := rnd.rng(1, 3)
+				for i := 0; i < cnt; i++ {
+					r, t, d := nal(-1)
+					nb = append(nb, vC12N{ref: r, typ: t, data: d}.iso())
+				}
+				ops = append(ops, vL(vZ(1), vI(k), vB(vC12IsoSample(arg, nb))))
+				lens[k] = [2]int{cnt, 0}
+			}
+		default:
+			if rnd.chance(2, 3) {
+				r, t, d := nal(-1)
+				ops = append(ops, vL(vZ(1), vI(k), vB(vC12N{ref: r, typ: t, data: d}.iso())))
+			}
+		}
+	}
+	steps := rnd.rng(3, 9)
+	for i := 0; i < steps; i++ {
+		k := rnd.intn(nobj)
+		kind := kinds[k]
+		switch p := rnd.intn(20); {
+		case p < 7:
+			ops = append(ops, vL(vZ(2), vI(k)))
+		case p < 9:
+			ops = append(ops, vL(vZ(8), vI(k), vI(rnd.intn(nobj))))
+		case p < 13:
+			if kind == 2 {
+				r, t, d := nal(rnd.pickInt(-1, 2, 2))
+				ops = append(ops, vL(vZ(3), vI(k), vI(r), vI(t), vB(d)))
+			} else {
+				w := rnd.intn(2)
+				if kind == 1 {
+					w = 0
+				}
+				n := lens[k][w]
+				idx := 0
+				if n > 0 {
+					idx = rnd.intn(n)
+				}
+				r, t, d := nal(rnd.pickInt(-1, 3, 3))
+				if rnd.chance(1, 6) {
+					r, t = rnd.intn(256), rnd.intn(256)
+				}
+				ops = append(ops, vL(vZ(4), vI(k), vI(w), vI(idx), vI(r), vI(t), vB(d)))
+			}
+		case p < 16:
+			if kind != 2 {
+				w := rnd.intn(2)
+				if kind == 1 {
+					w = 0
+				}
+				r, t, d := nal(-1)
+				ops = append(ops, vL(vZ(5), vI(k), vI(w), vI(r), vI(t), vB(d)))
+				l := lens[k]
+				l[w]++
+				lens[k] = l
+			} else {
+				ops = append(ops, vL(vZ(1), vI(k), vB(rnd.bytes(rnd.rng(0, 4)))))
+			}
+		case p < 17:
+			if kind != 2 {
+				w := rnd.intn(2)
+				if kind == 1 {
+					w = 0
+				}
+				ops = append(ops, vL(vZ(6), vI(k), vI(w)))
+				l := lens[k]
+				l[w] = 0
+				lens[k] = l
+			}
+		case p < 19:
+			if kind != 2 {
+				ops = append(ops, vL(vZ(7), vI(k), vI(rnd.pickInt(1, 1, rnd.intn(256))), vI(rnd.pickInt(66, 100, rnd.intn(256), 578)), vI(rnd.intn(256)), vI(rnd.intn(256)), vI(rnd.pickInt(3, 0, 1, 2, 3, 5))))
+			}
+		default: // unmarshal again into a used receiver (appends)
+			switch kind {
+			case 0:
+				a := vC12N{ref: 3, typ: 7, data: rnd.bytes(2)}
+				ops = append(ops, vL(vZ(1), vI(k), vB(vC12IsoRecord(1, 77, 0, 31, 3, [][]byte{a.iso()}, nil))))
+				l := lens[k]
+				l[0]++
+				lens[k] = l
+			case 2:
+				r, t, d := nal(-1)
+				ops = append(ops, vL(vZ(1), vI(k), vB(vC12N{ref: r, typ: t, data: d}.iso())))
+			}
+		}
+	}
+	for k := 0; k < nobj; k++ {
+		ops = append(ops, vL(vZ(2), vI(k)))
+	}
+	return vL(vZ(10), vLs(ops))
+}
+
 func vC12Gen(rnd *vRng) vSx {
+	if rnd.chance(1, 4) {
+		return vC12GenHistory(rnd)
+	}
 	switch p := rnd.intn(100); {
 	case p < 6:
 		return vL(vZ(1), vB(rnd.bytes(rnd.pickInt(0, 1, 1, 2, 5, rnd.intn(40)))))
@@ -954,6 +1390,30 @@ func TestVerifC12(t *testing.T) {
 			edge = 65535
 		}
 		runOne(vL(vZ(3), vI(lsm1), vL(vC12N{ref: 2, typ: 1, data: k.rnd.bytes(edge - 1)}.sx(), vC12N{ref: 0, typ: 9, data: nil}.sx(), vC12N{ref: 3, typ: 5, data: k.rnd.bytes(edge)}.sx())))
+	}
+	// histories aimed at state carried between calls and at results sharing storage
+	hist := func(ops ...vSx) { runOne(vL(vZ(10), vLs(ops))) }
+	for _, n := range []int{0, 1, 2, 7, 300} {
+		d1, d2, d3 := k.rnd.bytes(n), k.rnd.bytes(n), k.rnd.bytes(n+1)
+		first := vC12N{ref: 3, typ: 5, data: d1}
+		// NALU: unmarshal, replace Data by a same-length slice, marshal; different length; header only
+		hist(vL(vZ(0), vZ(0), vZ(2), vZ(0)), vL(vZ(1), vZ(0), vB(first.iso())), vL(vZ(2), vZ(0)),
+			vL(vZ(3), vZ(0), vZ(3), vZ(5), vB(d2)), vL(vZ(2), vZ(0)), vL(vZ(3), vZ(0), vZ(3), vZ(5), vB(d3)), vL(vZ(2), vZ(0)),
+			vL(vZ(3), vZ(0), vZ(1), vZ(5), vB(d3)), vL(vZ(2), vZ(0)), vL(vZ(1), vZ(0), vB(first.iso())), vL(vZ(2), vZ(0)))
+		// record: unmarshal, replace an SPS / a PPS payload by same-length data, marshal; append; clear
+		rb := vC12IsoRecord(1, 100, 0, 31, 3, [][]byte{first.iso()}, [][]byte{vC12N{ref: 3, typ: 8, data: d2}.iso()})
+		hist(vL(vZ(0), vZ(1), vZ(0), vZ(0)), vL(vZ(1), vZ(1), vB(rb)), vL(vZ(2), vZ(1)),
+			vL(vZ(4), vZ(1), vZ(0), vZ(0), vZ(3), vZ(7), vB(d2)), vL(vZ(2), vZ(1)),
+			vL(vZ(4), vZ(1), vZ(1), vZ(0), vZ(3), vZ(8), vB(d1)), vL(vZ(2), vZ(1)),
+			vL(vZ(5), vZ(1), vZ(1), vZ(2), vZ(8), vB(d3)), vL(vZ(2), vZ(1)), vL(vZ(6), vZ(1), vZ(0)), vL(vZ(2), vZ(1)),
+			vL(vZ(7), vZ(1), vZ(1), vZ(66), vZ(192), vZ(30), vZ(1)), vL(vZ(2), vZ(1)), vL(vZ(1), vZ(1), vB(rb)), vL(vZ(2), vZ(1)))
+		// samples: marshal A, marshal B, marshal A again, both concurrently; a NALU inside a sample replaced
+		sa := vC12IsoSample(3, [][]byte{first.iso(), vC12N{ref: 0, typ: 6, data: d3}.iso()})
+		sb := vC12IsoSample(1, [][]byte{vC12N{ref: 2, typ: 1, data: d2}.iso()})
+		hist(vL(vZ(0), vZ(0), vZ(1), vZ(3)), vL(vZ(0), vZ(1), vZ(1), vZ(1)), vL(vZ(1), vZ(0), vB(sa)), vL(vZ(1), vZ(1), vB(sb)),
+			vL(vZ(2), vZ(0)), vL(vZ(2), vZ(1)), vL(vZ(2), vZ(0)), vL(vZ(8), vZ(0), vZ(1)), vL(vZ(8), vZ(1), vZ(0)),
+			vL(vZ(4), vZ(0), vZ(0), vZ(0), vZ(3), vZ(5), vB(d2)), vL(vZ(2), vZ(0)), vL(vZ(2), vZ(1)),
+			vL(vZ(7), vZ(0), vZ(0), vZ(0), vZ(0), vZ(0), vZ(1)), vL(vZ(2), vZ(0)), vL(vZ(8), vZ(0), vZ(0)))
 	}
 	// exhaustive: all 256 NAL header bytes, all uint8 (and the named uint16) enum values
 	for v := 0; v < 256; v++ {
